@@ -194,10 +194,18 @@ class Base:
             uneliminatable_annotations |= a._uneliminatable_annotations
 
         if not skip_child_annotations:
+            # the given annotations first, then the arguments' relocatable ones in argument order: an order that does not
+            # depend on the hash seed (iterating a frozenset would)
+            merged = dict.fromkeys(annotations)
             for a in b_args:
                 relocatable_annotations |= a._relocatable_annotations
+                for anno in a.annotations:
+                    if anno in a._relocatable_annotations:
+                        merged.setdefault(anno)
+            for anno in relocatable_annotations:
+                merged.setdefault(anno)
 
-            annotations = tuple(frozenset((*annotations, *relocatable_annotations)))
+            annotations = tuple(merged)
 
         hash_ = Base._calc_hash(op, a_args, annotations, length)
         self = cls._hash_cache.get(hash_, None)
